@@ -516,3 +516,21 @@ Lemma ex_extras_build :
      = BOk ([], [47] ++ USERS ++ [47; 52; 50; 47; 120; 45; 37; 67; 51; 37; 65; 57; 37; 50; 48; 37; 50; 53]
                 ++ [63; 108; 61; 49; 38; 108; 61; 50; 38; 113; 61; 97; 43; 98]).
 Proof. repeat split; vm_compute; reflexivity. Qed.
+
+(* ================================================================== the options survive the factories
+   The companion of C03_flags_inherited: a factory rewrites one attribute; an explicit strict_slashes / merge_slashes
+   (False or True), websocket, alias, methods and defaults reach the map unchanged (Rule.empty / get_empty_kwargs) *)
+Definition options (r : rule) :=
+  (r_strict_opt r, r_merge_opt r, r_websocket r, r_alias r, r_methods r, r_defaults r, r_tail r).
+Theorem factories_keep_options r :
+  (forall pre, options (submount pre r) = options r)
+  /\ (forall d, options (with_dom d r) = options r)
+  /\ (forall f, options (with_endpoint f r) = options r)
+  /\ (forall ctx r', template ctx r = Some r' -> options r' = options r)
+  /\ (forall m pre, rstrict m (submount pre r) = rstrict m r /\ rmerge m (submount pre r) = rmerge m r)
+  /\ (forall m d, rstrict m (with_dom d r) = rstrict m r /\ rmerge m (with_dom d r) = rmerge m r).
+Proof.
+  repeat split; try reflexivity.
+  intros ctx r' H. unfold template in H. destruct (template_segs ctx (r_segs r)); [|discriminate].
+  destruct (match r_dom r with SLit k => _ | SDyn pre c n post => _ end); [|discriminate]. injection H as <-. reflexivity.
+Qed.
